@@ -53,6 +53,34 @@ func runC08(p *Prog, r *Report) {
 	checkErrorLogger(p, r, "C08.R6")
 	r.Min("C08.R7", 2)
 	checkErrorDrain(p, r, "C08.R7")
+	// R8: "each probe that detects a service yields exactly one output record" - the application scans print
+	// every record they are handed: nothing reachable from a socks / docker / elastic command installs the
+	// de-duplicating logger (it drops the second record of a target that was given twice)
+	r.Min("C08.R8", 3)
+	{
+		uniq := p.Func("command/log", "NewUniqueLogger")
+		eng := p.Func("pkg/scan", "NewScanEngine")
+		for _, fn := range p.SrcFuncs() {
+			if fn.Pkg != p.SPkg("command") || !isRunE(fn) || eng == nil {
+				continue
+			}
+			reach := p.staticReach(fn)
+			if !reach[eng] {
+				continue
+			}
+			via := ""
+			if uniq != nil && reach[uniq] {
+				for g := range reach {
+					if g != fn && p.staticReach(g)[uniq] && g != uniq && g.Pkg == fn.Pkg {
+						if via == "" || len(FuncName(g)) < len(via) {
+							via = FuncName(g)
+						}
+					}
+				}
+			}
+			r.Check(uniq != nil && !reach[uniq], "C08.R8", FuncName(fn)+"/prints-every-record", p.Pos(fn.Pos()), "no de-duplicating logger is reachable from an application-scan command (every detecting probe prints its record)", "NewUniqueLogger is reachable through "+via)
+		}
+	}
 	// R5: results detected before completion are still drained: cancel only after done + exit delay
 	r.Min("C08.R5", 2)
 	for _, f := range engineCallers(p) {
